@@ -1105,6 +1105,35 @@ def normal_same_as_fresh_object(prim):
         with S.quiet():
             used = S.method(bd, "normal", pts2, p2)
             fresh = S.method(S.getattr(prim.construct(S, h.shapes.args), "boundary"), "normal", pts2, p2)
+        if prim.name in ("parallelogram", "triangle") and h.kind == "fn":
+            # candidate counter-instance (refutation only): a rectangle / right triangle that turns by 90 degrees
+            # between t = 0 (first query) and t = 1 (second query), asked at its corners and edge midpoints
+            R = z3.RealVal
+            o, c1, c2 = (0, 0), (0, 2), (-1, 0)
+            tri = prim.name == "triangle"
+            far = (c1[0] + c2[0], c1[1] + c2[1])
+            corners = [o, c1, c2] + ([] if tri else [far])
+            ring = [o, c1, c2] if tri else [o, c1, far, c2]
+            mids = [((a[0] + b[0]) / 2, (a[1] + b[1]) / 2) for a, b in zip(ring, ring[1:] + ring[:1])]
+            table = corners + mids
+
+            def X2fn(q, c):
+                e = R(0)
+                for k, pnt in reversed(list(enumerate(table))):
+                    e = z3.If(q == k, z3.If(c == 0, R(pnt[0]), R(pnt[1])), e)
+                return e
+
+            S.candidate_instance(
+                "shape turning by 90 degrees between the two queries",
+                {
+                    "origin_0": lambda t: R(0) * t, "origin_1": lambda t: R(0) * t,
+                    "corner_1_0": lambda t: 2 - 2 * t, "corner_1_1": lambda t: 2 * t,
+                    "corner_2_0": lambda t: -t, "corner_2_1": lambda t: 1 - t,
+                    "tparam": lambda q: R(0) * z3.ToReal(q), "tparam2": lambda q: R(1) + 0 * z3.ToReal(q),
+                    "X1": lambda q, c: R(0) * z3.ToReal(q), "X2": X2fn,
+                },
+                {N1.t: len(table), N2.t: len(table)},
+            )
         S.same_tensor("second-query-on-a-used-boundary-object-equals-the-query-on-a-fresh-one", used, fresh)
 
     f.__name__ = f"{prim.name}_normal_does_not_depend_on_earlier_queries"
